@@ -139,6 +139,10 @@ type Node struct {
 	Orphans map[H]bool
 	// Dropped: vertices that left this node's live DAG without being checkpointed (tentative tips dropped as invalid)
 	Dropped []H
+	// Abandoned: the harness cancelled a truncation of this node after the checkpoint funds were written and before
+	// the vertices were cut (they are counted twice from then on). Outside every quantifier (DESIGN 5.4): the node is
+	// not judged any further.
+	Abandoned bool
 }
 
 // BackgroundMayAct reports whether the retry ticker may still admit (or give up on) a parked vertex.
